@@ -16,11 +16,6 @@ package validation
 //@ func ValidateMaxLength
 //@   ensures [C17] (len(result) == 0) == (len(val) <= maxLen)
 
-// immutability (C17): semantic equality of old and new value (apiequality.Semantic.DeepEqual: ASSUMED an equivalence)
-//@ pure semEq(a any, b any) bool
-//@ axiom semEq-reflexive: forall a any :: semEq(a, a)
-//@ extern func (k8s.io/apimachinery/third_party/forked/golang/reflect.Equalities).DeepEqual
-//@   params e, a1, a2
-//@   ensures result == semEq(a1, a2)
+// immutability (C17): semEq is apiequality.Semantic.DeepEqual, ASSUMED an equivalence (see fvc/lib/k8s.spec)
 //@ func ValidateImmutableField
 //@   ensures [C17] (len(result) == 0) == semEq(oldVal, newVal)
